@@ -96,5 +96,22 @@ Section Sums.
     induction n as [|n IH]; [cbn [sum]; ring|].
     change (sum (S (S n)) f) with (sum (S n) f + f (S n)). rewrite IH. cbn [sum]. ring.
   Qed.
+
+  (* exchanging the two outer with the two inner of four nested sums *)
+  Lemma sum4_rot n (g : nat -> nat -> nat -> nat -> R) :
+    sum n (fun k => sum n (fun l => sum n (fun i => sum n (fun j => g i j k l)))) =
+    sum n (fun i => sum n (fun j => sum n (fun k => sum n (fun l => g i j k l)))).
+  Proof.
+    (* k l i j -> k i l j *)
+    rewrite (sum_ext n _ (fun k => sum n (fun i => sum n (fun l => sum n (fun j => g i j k l)))))
+      by (intros k _; apply sum_swap).
+    (* k i l j -> k i j l *)
+    rewrite (sum_ext n _ (fun k => sum n (fun i => sum n (fun j => sum n (fun l => g i j k l)))))
+      by (intros k _; apply sum_ext; intros i _; apply sum_swap).
+    (* k i j l -> i k j l *)
+    rewrite sum_swap.
+    (* i k j l -> i j k l *)
+    apply sum_ext. intros i _. apply sum_swap.
+  Qed.
 End Sums.
 
